@@ -16,8 +16,20 @@ def make_tree(rnd, profile):
     tg = gen_trees.XGen(rnd)
     if profile in ('core', 'contains', 'case', 'odd'):
         body = [tg.generic(1) for _ in range(rnd.choice([1, 1, 2]))]
+        if profile == 'contains' and rnd.random() < 0.5:
+            # nested iframes whose content must not count as text of the outer document (HTML)
+            def ifr(n, depth=0):
+                if n[0] != 'e':
+                    return n
+                kids = [ifr(c, depth + 1) for c in n[3]]
+                if depth > 0 and rnd.random() < 0.2:
+                    return ('e', 'iframe', {}, [('e', 'html', {}, [('e', 'body', {}, kids)])] if rnd.random() < 0.5 else kids)
+                return ('e', n[1], n[2], kids)
+            body = [ifr(b) for b in body] + [('t', rnd.choice(['tail', 'end', 'x']))]
         ab = ('e', 'html', {}, [('e', 'head', {}, []), ('e', 'body', {}, body)])
         mode = rnd.choice(['api', 'api', 'html.parser', 'lxml', 'html5lib', 'xml', 'frag', 'multi'])
+        if profile == 'contains':
+            mode = rnd.choice(['api', 'api', 'html.parser', 'html.parser', 'lxml', 'html5lib', 'xml', 'frag'])
         if profile == 'odd':
             mode = rnd.choice(['api', 'apixml', 'frag'])
     elif profile == 'forms':
